@@ -46,7 +46,34 @@ type c11Limits struct {
 	bigFixtures                 bool
 }
 
+// c11Huge is set by generate() for the few runs of a tier that get a subject
+// with more than 2^16 keys.
+var c11Huge bool
+
+func genHugeSpec(r *Rng) (TrieSpec, string) {
+	n := r.PickI(65536, 65537, 70000, 100000, 131073)
+	set := map[string]bool{}
+	format := r.PickS("%06d", "k%07x", "u/%06d/profile")
+	stride := r.PickI(1, 3)
+	for i := 0; len(set) < n; i++ {
+		set[fmt.Sprintf(format, i*stride)] = true
+	}
+	s := TrieSpec{Keys: sortUniq(set), Enc: r.PickS("i32", "u16", "i64", "str16"), Opt: genOpt(r)}
+	if r.Chance(0.7) {
+		s.Opt[2] = 1 // leaf prefixes present
+	}
+	if r.Chance(0.75) {
+		s.ValIDs = make([]int64, len(s.Keys))
+		for i := range s.ValIDs {
+			s.ValIDs[i] = int64(i)
+		}
+		s.Opt[0] = 0 // keep every key: leaf ordinal == key ordinal
+	}
+	return s, "huge"
+}
+
 func genC11(r *Rng, tier string) *C11Scn {
+	huge := c11Huge
 	lim := c11Limits{maxKeys: 300, maxTasks: 6, maxUnits: 10}
 	if r.Chance(0.1) {
 		lim = c11Limits{maxKeys: 3000, maxTasks: 12, maxUnits: 8}
@@ -55,8 +82,9 @@ func genC11(r *Rng, tier string) *C11Scn {
 	if hammer {
 		// few tasks, hundreds of cheap units each: while one task is parked the
 		// others perform hundreds of operations (counters, generations and ring
-		// indexes in the code under test wrap around)
-		lim = c11Limits{maxKeys: 300, maxTasks: 4, maxUnits: 400}
+		// indexes in the code under test wrap around); half of them on tries
+		// big enough to have dozens of 257-bit nodes
+		lim = c11Limits{maxKeys: r.PickI(300, 3000), maxTasks: 4, maxUnits: 400}
 	}
 	if tier == "thorough" {
 		switch r.Intn(10) {
@@ -109,6 +137,13 @@ func genC11(r *Rng, tier string) *C11Scn {
 		if r.Chance(0.01) {
 			spec, name = genBigValueSpec(r)
 		}
+		if huge {
+			// at and beyond 2^16 keys / leaves / nodes: "big trie" thresholds of
+			// auxiliary structures. Loaded, so that every pass and twin costs one
+			// Unmarshal of a cached stream instead of a build.
+			spec, name = genHugeSpec(r)
+			c.Source = r.PickS("loaded", "loaded", "reloaded")
+		}
 		c.Spec, c.Gen = &spec, name
 		keys = spec.Keys
 		mix.Complete = spec.complete()
@@ -148,6 +183,9 @@ func genC11(r *Rng, tier string) *C11Scn {
 	mix.Heavy = len(keys) <= 3000
 	mix.ScanLimit = 6
 	nq := 40
+	if hammer {
+		nq = 300 // more distinct nodes visited than any small cache holds
+	}
 	qs := genQueries(r, keys, nq)
 	nt := r.Range(2, lim.maxTasks)
 	for i := 0; i < nt; i++ {
@@ -174,6 +212,14 @@ func (c *C11Scn) stream() ([]byte, string, error) {
 		}
 		return f.Data, fixtureEnc, nil
 	case "loaded", "reloaded":
+		// the stream of a spec is built once and reused by the many passes and
+		// re-executions of a scenario (cache of two, keyed by content)
+		key := specKey(c.Spec)
+		for i := range streamCache {
+			if streamCache[i].key == key && streamCache[i].b != nil {
+				return streamCache[i].b, c.Spec.Enc, nil
+			}
+		}
 		src, err := c.Spec.build()
 		if err != nil {
 			return nil, "", err
@@ -182,9 +228,43 @@ func (c *C11Scn) stream() ([]byte, string, error) {
 		if err != nil {
 			return nil, "", err
 		}
+		streamCache[streamCacheNext%len(streamCache)] = streamCacheEntry{key, b}
+		streamCacheNext++
 		return b, c.Spec.Enc, nil
 	}
 	return nil, "", nil
+}
+
+type streamCacheEntry struct {
+	key uint64
+	b   []byte
+}
+
+var (
+	streamCache     [2]streamCacheEntry
+	streamCacheNext int
+)
+
+func specKey(s *TrieSpec) uint64 {
+	h := uint64(14695981039346656037)
+	mixb := func(b []byte) {
+		for _, c := range b {
+			h = (h ^ uint64(c)) * fnvPrime
+		}
+		h = (h ^ 0xfe) * fnvPrime
+	}
+	for _, k := range s.Keys {
+		mixb(k)
+	}
+	for _, v := range s.ValIDs {
+		h = (h ^ uint64(v)) * fnvPrime
+	}
+	if s.ValIDs == nil {
+		h = (h ^ 0xabc) * fnvPrime
+	}
+	mixb([]byte(s.Enc))
+	mixb([]byte{byte(s.Opt[0] + 2), byte(s.Opt[1] + 2), byte(s.Opt[2] + 2), byte(s.Opt[3] + 2)})
+	return h
 }
 
 var otherStream []byte
@@ -398,8 +478,11 @@ func sweepCandidates(seed uint64, tasks []TaskSpec, refs map[string]unitRef, max
 			sortInts(vs)
 			for _, v := range vs {
 				st := Strategy{Kind: "sweep", Seed: r.U64(), Task: ti, Site: site, Skip: v, Resolved: true}
-				if r.Chance(0.3) {
+				switch {
+				case r.Chance(0.25):
 					st.Second = 1 + int(r.U64()%uint64(1<<uint(r.Range(1, 12))))
+				case r.Chance(0.4):
+					st.Again, st.FirstUnits = r.PickI(1, 1, 2, 3, 5), r.PickI(1, 1, 2, 0)
 				}
 				all = append(all, st)
 			}
@@ -438,7 +521,7 @@ func executeC11Once(scn *Scenario) *RunResult {
 	adaptToSync(&scn.Strat, c.Tasks, refs)
 	resolveSweep(&scn.Strat, c.Tasks, refs)
 	if generated {
-		res.SweepCands = sweepCandidates(scn.Strat.Seed, c.Tasks, refs, 24)
+		res.SweepCands = sweepCandidates(scn.Strat.Seed, c.Tasks, refs, 36)
 	}
 	refsB, _ := soloRefs(twinB, c.Tasks)
 	for k, r := range refs {
